@@ -193,6 +193,12 @@ func vParam(name string, def int) int {
 	return def
 }
 
+// vNativeReps: how often a harness repeats a racy step. The engine explores
+// one repetition under every interleaving within its budget; the native replay
+// repeats the step so that the native scheduler gets a realistic chance to
+// hit the interleaving the engine found.
+func vNativeReps(engine, native int) int { return native }
+
 func vIdealEq(a, b []byte) bool { return bytes.Equal(a, b) }
 
 // vMentions natively: does b contain a run of >= 8 bytes of secret?
